@@ -620,7 +620,9 @@ class EdSim(core.Engine):
                 pathv = {'rel': name, 'abs': '{ROOT}/' + name, 'dot': './' + name}[sp]
                 if entry['spelling'] == 'from_parent' and sp != 'abs':
                     pathv = 'root/' + name
-                ops.append({'op': 'add', 'name': name, 'path': pathv, 'text': f'2000-01-01 open Assets:{name.split("/")[-1][:-5].capitalize()}\n'})
+                text = rng.choice(['', '', f'2000-01-01 open Assets:{name.split("/")[-1][:-5].capitalize()}\n', '; only a comment\n',
+                                   f'2000-01-01 open Assets:{name.split("/")[-1][:-5].capitalize()}', '\n'])
+                ops.append({'op': 'add', 'name': name, 'path': pathv, 'text': text})
         trace = {'knobs': {'faults': 'enumerated'}, 'world': world, 'entry': entry, 'glob_seed': rng.randrange(1 << 30), 'ops': ops}
         # enumerate the crash point: the plain run first, then a raise before each step k
         first = self._execute(trace, prop)
